@@ -3,6 +3,11 @@ package c16
 import (
 	"math"
 
+	"github.com/go-gl/mathgl/mgl64"
+	closest "github.com/trajectoryjp/closest_go"
+	geodesy "github.com/trajectoryjp/geodesy_go/coordinates"
+	"github.com/trajectoryjp/spatial_id_go/v4/common/enum"
+	"github.com/trajectoryjp/spatial_id_go/v4/shape"
 	"github.com/trajectoryjp/spatial_id_go/v4/transform"
 
 	. "verif/harness/gen"
@@ -13,7 +18,7 @@ import (
 // ---------------------------------------------------------------------------------------------- voxels
 
 // genLimit: size of the largest result a generated call produces (every case makes about 25 calls)
-const genLimit = 400
+const genLimit = 300
 
 type eid struct{ h, x, y, v, f int64 }
 
@@ -164,7 +169,7 @@ func lenTag(n int) string { return Tag("len=%d", min64(int64(n), 12)) }
 
 // ---------------------------------------------------------------------------------------------- zoom change
 
-func genChange(r *run.Runner, g *Gen, same bool) {
+func genChange(r *run.Runner, g *Gen, same bool) bool {
 	t := baseVoxel(g, 1, 33, 1, 33, same)
 	n := 1 + g.Intn(6)
 	es := cluster(g, t, n, 2, 2, same)
@@ -226,7 +231,7 @@ func genChange(r *run.Runner, g *Gen, same bool) {
 		oids = sidStrs(other)
 	}
 	decoys := [][]w.Val{mk(ids, clampZ(H-1), clampZ(V-1)), mk(oids, H, V)}
-	emit(r, name, mk(ids, H, V), decoys, g.R.Int63(), []string{mode, lenTag(n)}, false)
+	return emit(r, name, mk(ids, H, V), decoys, g.R.Int63(), []string{mode, lenTag(n)}, false)
 }
 
 // ---------------------------------------------------------------------------------------------- merge
@@ -275,7 +280,7 @@ func mergeWork(es []eid, H, V int64) int64 {
 	return s
 }
 
-func genMerge(r *run.Runner, g *Gen, same bool) {
+func genMerge(r *run.Runner, g *Gen, same bool) bool {
 	for try := 0; try < 20; try++ {
 		t := baseVoxel(g, 0, 32, 0, 32, same)
 		H, V := t.h, t.v
@@ -363,14 +368,14 @@ func genMerge(r *run.Runner, g *Gen, same bool) {
 		if same {
 			ids := sidStrs(es)
 			decoys := [][]w.Val{{sidStrs(sub), w.I(H)}, {sidStrs(allDesc(u, 1, 1)), w.I(H)}, {ids, w.I(clampZ(H - 1))}}
-			emit(r, "MergeSpatialIds", []w.Val{ids, w.I(H)}, decoys, g.R.Int63(), tags, len(es) < 2)
+			return emit(r, "MergeSpatialIds", []w.Val{ids, w.I(H)}, decoys, g.R.Int63(), tags, len(es) < 2)
 		} else {
 			ids := extStrs(es)
 			decoys := [][]w.Val{{extStrs(sub), w.I(H), w.I(V)}, {extStrs(allDesc(u, 1, 1)), w.I(H), w.I(V)}, {ids, w.I(clampZ(H - 1)), w.I(V)}}
-			emit(r, "MergeExtendedSpatialIds", []w.Val{ids, w.I(H), w.I(V)}, decoys, g.R.Int63(), tags, len(es) < 2)
+			return emit(r, "MergeExtendedSpatialIds", []w.Val{ids, w.I(H), w.I(V)}, decoys, g.R.Int63(), tags, len(es) < 2)
 		}
-		return
 	}
+	return false
 }
 
 // ---------------------------------------------------------------------------------------------- lines and corridors
@@ -407,6 +412,12 @@ func segment(g *Gen, lon, lat, alt float64, h, v int64, k float64) (w.Val, w.Val
 
 func lineZooms(g *Gen) (int64, int64) {
 	h, v := 8+g.Int63n(26), 8+g.Int63n(26)
+	if g.Chance(0.15) {
+		h = g.Int63n(8)
+	}
+	if g.Chance(0.15) {
+		v = g.Int63n(8)
+	}
 	if g.Chance(0.3) {
 		h = g.Pick(30, 31, 32, 20, 25)
 	}
@@ -416,30 +427,44 @@ func lineZooms(g *Gen) (int64, int64) {
 	return h, v
 }
 
-func genLine(r *run.Runner, g *Gen, same bool) {
+func genLine(r *run.Runner, g *Gen, same bool) bool {
 	h, v := lineZooms(g)
 	if same {
 		v = h
 	}
 	lon, lat := g.R.Float64()*358-179, g.R.Float64()*160-80
 	alt := (g.R.Float64()*2 - 1) * 800
+	tags := []string{}
+	if g.Chance(0.12) { // next to the antimeridian (an end point beyond it is clamped onto it)
+		lon = 180 - g.R.Float64()*3*cellLon(h)
+		if g.Chance(0.5) {
+			lon = -lon
+		}
+		tags = append(tags, "antimeridian")
+	}
 	p1, p2, ok := segment(g, lon, lat, alt, h, v, 5)
+	if h <= 5 && g.Chance(0.3) { // end points on both sides of the antimeridian: the segment runs the long way round
+		q, okq := pt(-lon, lat+(g.R.Float64()*2-1)*3, alt)
+		if okq {
+			p2 = q
+			tags = append(tags, "both-sides")
+		}
+	}
 	q1, q2, ok2 := segment(g, lon, lat, alt, h, v, 4)
 	if !ok || !ok2 {
-		return
+		return false
 	}
 	if same {
 		decoys := [][]w.Val{{q1, q2, w.I(h)}, {p1, p2, w.I(clampZ(h - 1))}, {p2, p1, w.I(h)}}
-		emit(r, "GetSpatialIdsOnLine", []w.Val{p1, p2, w.I(h)}, decoys, g.R.Int63(), []string{Tag("z=%d", h)}, false)
-		return
+		return emit(r, "GetSpatialIdsOnLine", []w.Val{p1, p2, w.I(h)}, decoys, g.R.Int63(), append(tags, Tag("z=%d", h)), false)
 	}
 	decoys := [][]w.Val{{q1, q2, w.I(h), w.I(v)}, {p1, p2, w.I(clampZ(h - 1)), w.I(v)}, {p1, p2, w.I(h), w.I(clampZ(v + 1))}}
-	emit(r, "GetExtendedSpatialIdsOnLine", []w.Val{p1, p2, w.I(h), w.I(v)}, decoys, g.R.Int63(), []string{Tag("h=%d", h), Tag("v=%d", v)}, false)
+	return emit(r, "GetExtendedSpatialIdsOnLine", []w.Val{p1, p2, w.I(h), w.I(v)}, decoys, g.R.Int63(), append(tags, Tag("h=%d", h), Tag("v=%d", v)), false)
 }
 
 // corridor: the same zooms and radius at clearly different latitudes need different layer counts; decoys share (zooms, radius)
 // with the call at another latitude, and (zooms, place) at another radius
-func genCorridor(r *run.Runner, g *Gen) {
+func genCorridor(r *run.Runner, g *Gen) bool {
 	h := 14 + g.Int63n(10)
 	v := 14 + g.Int63n(12)
 	latHi := (55 + g.R.Float64()*6)
@@ -459,8 +484,18 @@ func genCorridor(r *run.Runner, g *Gen) {
 	}
 	rad := units * cellWidthM(h, latLo)
 	skip := g.Chance(0.5)
+	anti := g.Chance(0.15)
+	if anti {
+		tag += ",antimeridian"
+	}
 	mk := func(lat float64, rad float64, skip bool) ([]w.Val, bool) {
 		lon := g.R.Float64()*358 - 179
+		if anti { // the search box wraps around
+			lon = 180 - g.R.Float64()*2*cellLon(h)
+			if g.Chance(0.5) {
+				lon = -lon
+			}
+		}
 		alt := (g.R.Float64()*2 - 1) * 500
 		p1, p2, ok := segment(g, lon, lat, alt, h, v, 1.5)
 		return []w.Val{p1, p2, w.F(rad), w.I(h), w.I(v), w.B(skip)}, ok
@@ -473,21 +508,170 @@ func genCorridor(r *run.Runner, g *Gen) {
 		tag += ",high-lat"
 	}
 	A, ok1 := mk(aLat, rad, skip)
-	B, ok2 := mk(bLat, rad, skip)         // same zooms, radius and mode, other latitude
-	C, ok3 := mk(bLat, rad*0.4, skip)     // other radius at the other latitude
-	D, ok4 := mk(bLat, rad, !skip)        // other mode
-	E := append([]w.Val{}, A...)          // same place, other radius
+	B, ok2 := mk(bLat, rad, skip)     // same zooms, radius and mode, other latitude
+	C, ok3 := mk(bLat, rad*0.4, skip) // other radius at the other latitude
+	D, ok4 := mk(bLat, rad, !skip)    // other mode
+	E := append([]w.Val{}, A...)      // same place, other radius
 	E[2] = w.F(rad * 0.45)
 	if !(ok1 && ok2 && ok3 && ok4) {
-		return
+		return false
 	}
-	emit(r, "GetExtendedSpatialIdsWithinRadiusOfLine", A, [][]w.Val{C, B, E, D}, g.R.Int63(),
+	return emit(r, "GetExtendedSpatialIdsWithinRadiusOfLine", A, [][]w.Val{C, B, E, D}, g.R.Int63(),
 		[]string{tag, Tag("skip=%v", skip), Tag("h=%d", h)}, false)
+}
+
+// ---- corridor, radius ON a measured-distance tie ----
+// The measured mode keeps a candidate voxel when `dist < radius`, dist coming from one closest.Measure that is reused for all candidates:
+// its search starts from the direction left by the previous candidate, so dist can differ in the last ulps with the order in which the
+// candidates are measured. A radius that is a random multiple of the cell width never comes that close to a candidate's distance.
+// Here the radius is the distance the real code measures for one candidate (same calls as the function makes: the voxel's 8 vertices,
+// GeocentricFromGeodetic{lon, lat, lat}, MeasureNonnegativeDistance; a fresh Measure) plus or minus a few ulps.
+func geocentric(lon, lat float64) *mgl64.Vec3 {
+	c := geodesy.GeocentricFromGeodetic(geodesy.Geodetic{lon, lat, lat})
+	return (*mgl64.Vec3)(&c)
+}
+
+func hullOf(id string) ([]*mgl64.Vec3, bool) {
+	vs, err := shape.GetPointOnExtendedSpatialId(id, enum.Vertex)
+	if err != nil {
+		return nil, false
+	}
+	hull := []*mgl64.Vec3{}
+	for _, v := range vs {
+		hull = append(hull, geocentric(v.Lon(), v.Lat()))
+	}
+	return hull, true
+}
+
+// lineToVoxelDistance: the smallest and the largest distance the function can measure for the voxel id: with a fresh Measure, and with
+// the one Measure of the function's loop after it measured one of the other candidates (preds) just before
+func lineToVoxelDistance(p1, p2 w.Val, id string, preds []string) (lo, hi float64, ok bool) {
+	a, b := w.AsList(p1), w.AsList(p2)
+	hull, ok := hullOf(id)
+	if !ok {
+		return 0, 0, false
+	}
+	line := []*mgl64.Vec3{geocentric(w.AsFlt(a[0]), w.AsFlt(a[1])), geocentric(w.AsFlt(b[0]), w.AsFlt(b[1]))}
+	m := closest.Measure{}
+	m.ConvexHulls[0] = line
+	m.ConvexHulls[1] = hull
+	m.MeasureNonnegativeDistance()
+	lo, hi = m.Distance, m.Distance
+	for _, pr := range preds {
+		ph, ok := hullOf(pr)
+		if !ok {
+			continue
+		}
+		mw := closest.Measure{}
+		mw.ConvexHulls[0] = line
+		mw.ConvexHulls[1] = ph
+		mw.MeasureNonnegativeDistance()
+		mw.ConvexHulls[1] = hull
+		mw.MeasureNonnegativeDistance()
+		lo, hi = math.Min(lo, mw.Distance), math.Max(hi, mw.Distance)
+	}
+	return lo, hi, true
+}
+
+func ulps(x float64, k int) float64 {
+	for ; k > 0; k-- {
+		x = math.Nextafter(x, math.Inf(1))
+	}
+	for ; k < 0; k++ {
+		x = math.Nextafter(x, math.Inf(-1))
+	}
+	return x
+}
+
+func genCorridorTie(r *run.Runner, g *Gen) bool {
+	h := 16 + g.Int63n(8)
+	v := h
+	if g.Chance(0.5) {
+		v = 14 + g.Int63n(12)
+	}
+	lat := (g.R.Float64()*2 - 1) * 60
+	lon := g.R.Float64()*358 - 179
+	if g.Chance(0.15) { // next to the antimeridian: the box wraps around
+		lon = 180 - g.R.Float64()*2*cellLon(h)
+		if g.Chance(0.5) {
+			lon = -lon
+		}
+	}
+	alt := (g.R.Float64()*2 - 1) * 500
+	p1, p2, ok := segment(g, lon, lat, alt, h, v, 1.5)
+	if !ok {
+		return false
+	}
+	o := opByName("GetExtendedSpatialIdsWithinRadiusOfLine")
+	r0 := (1.05 + 0.7*g.R.Float64()) * cellWidthM(h, lat)
+	probe := []w.Val{p1, p2, w.F(r0), w.I(h), w.I(v), w.B(true)}
+	in, _ := safeBuild(o, probe)
+	if in == nil {
+		return false
+	}
+	all, isList := in.call().(w.List)
+	lineIDs, err := shape.GetExtendedSpatialIdsOnLine(PointsFromVal(w.L(p1))[0], PointsFromVal(w.L(p2))[0], h, v)
+	if !isList || err != nil {
+		return false
+	}
+	onLine := map[string]bool{}
+	for _, s := range lineIDs {
+		onLine[s] = true
+	}
+	var cand []string
+	for _, e := range all {
+		if s := w.AsStr(e); !onLine[s] {
+			cand = append(cand, s)
+		}
+	}
+	if len(cand) == 0 {
+		return false
+	}
+	for try := 0; try < 6; try++ {
+		c := cand[g.Intn(len(cand))]
+		var preds []string
+		for k := 0; k < 8; k++ {
+			preds = append(preds, cand[g.Intn(len(cand))])
+		}
+		dlo, d, ok := lineToVoxelDistance(p1, p2, c, preds)
+		if !ok || !(d > 0) || d > r0 {
+			continue
+		}
+		// the candidate must still be inside the search box that the function fits for a radius of d
+		chk, _ := safeBuild(o, []w.Val{p1, p2, w.F(ulps(d, 8)), w.I(h), w.I(v), w.B(false)})
+		if chk == nil {
+			continue
+		}
+		inBox := false
+		if l, ok := chk.call().(w.List); ok {
+			for _, e := range l {
+				if w.AsStr(e) == c {
+					inBox = true
+				}
+			}
+		}
+		if !inBox {
+			continue
+		}
+		k := g.Intn(5) - 2
+		spread := "tie-spread=0"
+		if dlo < d { // the measurement of this voxel already depends on its predecessor: the larger value makes `dist < radius` flip
+			k = 0
+			spread = "tie-spread>0"
+		}
+		rad := ulps(d, k)
+		A := []w.Val{p1, p2, w.F(rad), w.I(h), w.I(v), w.B(false)}
+		B := []w.Val{p1, p2, w.F(rad), w.I(h), w.I(v), w.B(true)}
+		C := []w.Val{p1, p2, w.F(rad * 0.5), w.I(h), w.I(v), w.B(false)}
+		return emit(r, "GetExtendedSpatialIdsWithinRadiusOfLine", A, [][]w.Val{C, B}, g.R.Int63(),
+			[]string{"r=measured-distance-tie", Tag("tie-ulps=%d", k), spread, "skip=false", Tag("h=%d", h)}, false)
+	}
+	return false
 }
 
 // ---------------------------------------------------------------------------------------------- neighbourhoods
 
-func genFixedNb(r *run.Runner, g *Gen) {
+func genFixedNb(r *run.Runner, g *Gen) bool {
 	name := []string{"Get6spatialIdsAdjacentToFaces", "Get8spatialIdsAroundHorizontal", "Get26spatialIdsAroundVoxel"}[g.Intn(3)]
 	var t eid
 	if g.Chance(0.35) { // narrow grids: the stencil wraps onto itself
@@ -496,10 +680,10 @@ func genFixedNb(r *run.Runner, g *Gen) {
 		t = baseVoxel(g, 0, 35, 0, 35, false)
 	}
 	u := baseVoxel(g, 0, 35, 0, 35, false)
-	emit(r, name, []w.Val{w.S(t.str())}, [][]w.Val{{w.S(u.str())}, {w.S(near(g, t).str())}}, g.R.Int63(), []string{Tag("h=%d", min64(t.h, 4))}, false)
+	return emit(r, name, []w.Val{w.S(t.str())}, [][]w.Val{{w.S(u.str())}, {w.S(near(g, t).str())}}, g.R.Int63(), []string{Tag("h=%d", min64(t.h, 4))}, false)
 }
 
-func genN(r *run.Runner, g *Gen) {
+func genN(r *run.Runner, g *Gen) bool {
 	var t eid
 	if g.Chance(0.3) {
 		t = baseVoxel(g, 0, 3, 0, 3, false)
@@ -526,7 +710,7 @@ func genN(r *run.Runner, g *Gen) {
 	}
 	ids := extStrs(es)
 	decoys := [][]w.Val{{ids, w.I(max64(0, H-1)), w.I(V)}, {extStrs(es[:1]), w.I(H), w.I(V)}, {ids, w.I(H), w.I(V + 1)}}
-	emit(r, "GetNspatialIdsAroundVoxcels", []w.Val{ids, w.I(H), w.I(V)}, decoys, g.R.Int63(),
+	return emit(r, "GetNspatialIdsAroundVoxcels", []w.Val{ids, w.I(H), w.I(V)}, decoys, g.R.Int63(),
 		[]string{Tag("layers=%d/%d", H, V), lenTag(n)}, H == 0 && V == 0)
 }
 
@@ -534,7 +718,10 @@ func genN(r *run.Runner, g *Gen) {
 
 // spatial IDs inside the documented altitude domain: 1 <= z, -2^(z-1) <= f < 2^(z-1)
 func sidVoxel(g *Gen) eid {
-	z := 1 + g.Int63n(28)
+	z := 1 + g.Int63n(35)
+	if g.Chance(0.15) {
+		z = 31 + g.Int63n(5)
+	}
 	half := int64(1) << uint(z-1)
 	f := g.Int63n(2*half) - half
 	if g.Chance(0.3) {
@@ -546,7 +733,7 @@ func sidDom(e eid) bool {
 	return e.valid() && e.h == e.v && e.h >= 1 && -(int64(1)<<uint(e.h-1)) <= e.f && e.f < int64(1)<<uint(e.h-1)
 }
 
-func genOverlap(r *run.Runner, g *Gen, sid, array bool) {
+func genOverlap(r *run.Runner, g *Gen, sid, array bool) bool {
 	var t eid
 	if sid {
 		t = sidVoxel(g)
@@ -596,8 +783,7 @@ func genOverlap(r *run.Runner, g *Gen, sid, array bool) {
 		if sid {
 			name = "CheckSpatialIdsOverlap"
 		}
-		emit(r, name, []w.Val{one(a), one(b)}, [][]w.Val{{one(b), one(a)}, {one(a), one(a)}, {one(pickN(u, 1)[0]), one(b)}}, g.R.Int63(), []string{rel}, false)
-		return
+		return emit(r, name, []w.Val{one(a), one(b)}, [][]w.Val{{one(b), one(a)}, {one(a), one(a)}, {one(pickN(u, 1)[0]), one(b)}}, g.R.Int63(), []string{rel}, false)
 	}
 	l1, l2 := pickN(t, 1+g.Intn(5)), pickN(u, 1+g.Intn(5))
 	name := "CheckExtendedSpatialIdsArrayOverlap"
@@ -605,7 +791,7 @@ func genOverlap(r *run.Runner, g *Gen, sid, array bool) {
 		name = "CheckSpatialIdsArrayOverlap"
 	}
 	decoys := [][]w.Val{{enc(l2), enc(l1)}, {enc(l1), enc(l1[:1])}, {enc(pickN(u, 2)), enc(l2)}}
-	emit(r, name, []w.Val{enc(l1), enc(l2)}, decoys, g.R.Int63(), []string{rel, lenTag(len(l1) + len(l2))}, false)
+	return emit(r, name, []w.Val{enc(l1), enc(l2)}, decoys, g.R.Int63(), []string{rel, lenTag(len(l1) + len(l2))}, false)
 }
 
 // ---------------------------------------------------------------------------------------------- key conversions
@@ -622,7 +808,7 @@ func heights(g *Gen) (float64, float64, string) {
 	return 0, 0, "index-form"
 }
 
-func genE2Q(r *run.Runner, g *Gen, sid bool) {
+func genE2Q(r *run.Runner, g *Gen, sid bool) bool {
 	mx, mn, form := heights(g)
 	var t eid
 	if form == "bit-form" {
@@ -665,10 +851,10 @@ func genE2Q(r *run.Runner, g *Gen, sid bool) {
 		oids = sidStrs(other)
 	}
 	decoys := [][]w.Val{mk(oids, oh, ov), mk(ids, max64(1, oh-1), ov)}
-	emit(r, name, mk(ids, oh, ov), decoys, g.R.Int63(), []string{form, lenTag(n)}, false)
+	return emit(r, name, mk(ids, oh, ov), decoys, g.R.Int63(), []string{form, lenTag(n)}, false)
 }
 
-func genE2QA(r *run.Runner, g *Gen) {
+func genE2QA(r *run.Runner, g *Gen) bool {
 	t := baseVoxel(g, 1, 30, 20, 27, false)
 	t.f = g.Int63n(2000) - 1000
 	if !t.valid() {
@@ -687,14 +873,14 @@ func genE2QA(r *run.Runner, g *Gen) {
 	mk := func(ids w.Val, oq, oa int64) []w.Val { return []w.Val{ids, w.I(oq), w.I(oa), w.I(E), w.I(O)} }
 	other := cluster(g, near(g, t), 1+g.Intn(2), 0, 1, false)
 	decoys := [][]w.Val{mk(extStrs(other), oq, oa), mk(ids, oq, clampZ(oa-1))}
-	emit(r, "ConvertExtendedSpatialIDsToQuadkeysAndAltitudekeys", mk(ids, oq, oa), decoys, g.R.Int63(), []string{Tag("E=%d", E), Tag("O=%d", O), lenTag(n)}, false)
+	return emit(r, "ConvertExtendedSpatialIDsToQuadkeysAndAltitudekeys", mk(ids, oq, oa), decoys, g.R.Int63(), []string{Tag("E=%d", E), Tag("O=%d", O), lenTag(n)}, false)
 }
 
 func encodeQuadkey(h, x, y int64) int64 {
 	return transform.VerifConvertHorizontalIDToQuadkey(Tag("%d/%d/%d", h, x, y))
 }
 
-func genQ2E(r *run.Runner, g *Gen, sid bool) {
+func genQ2E(r *run.Runner, g *Gen, sid bool) bool {
 	mx, mn, form := heights(g)
 	t := baseVoxel(g, 1, 31, 1, 33, false)
 	if form == "bit-form" {
@@ -737,22 +923,21 @@ func genQ2E(r *run.Runner, g *Gen, sid bool) {
 	}
 	if sid {
 		decoys := [][]w.Val{{items[:1], w.I(oh)}, {items, w.I(clampZ(oh - 1))}}
-		emit(r, "ConvertQuadkeysAndVerticalIDsToSpatialIDs", []w.Val{items, w.I(oh)}, decoys, g.R.Int63(), []string{form, lenTag(n)}, false)
-		return
+		return emit(r, "ConvertQuadkeysAndVerticalIDsToSpatialIDs", []w.Val{items, w.I(oh)}, decoys, g.R.Int63(), []string{form, lenTag(n)}, false)
 	}
 	decoys := [][]w.Val{{items[:1], w.I(oh), w.I(ov)}, {items, w.I(clampZ(oh - 1)), w.I(ov)}}
-	emit(r, "ConvertQuadkeysAndVerticalIDsToExtendedSpatialIDs", []w.Val{items, w.I(oh), w.I(ov)}, decoys, g.R.Int63(), []string{form, lenTag(n)}, false)
+	return emit(r, "ConvertQuadkeysAndVerticalIDsToExtendedSpatialIDs", []w.Val{items, w.I(oh), w.I(ov)}, decoys, g.R.Int63(), []string{form, lenTag(n)}, false)
 }
 
 // ---------------------------------------------------------------------------------------------- tiles
 
-func genTiles(r *run.Runner, g *Gen, spatial bool) {
+func genTiles(r *run.Runner, g *Gen, spatial bool) bool {
 	hz := g.Int63n(31)
 	vz := 18 + g.Int63n(10)
 	E := int64(25)
 	O := g.Pick(0, 0, 8, -2, 7)
 	x, y := g.HIndex(hz), g.HIndex(hz)
-	z0 := g.Int63n(200) - 20
+	z0 := g.Int63n(200)
 	n := 1 + g.Intn(5)
 	tiles := w.List{}
 	for i := 0; i < n; i++ {
@@ -781,10 +966,10 @@ func genTiles(r *run.Runner, g *Gen, spatial bool) {
 		ov--
 	}
 	decoys := [][]w.Val{{tiles[:1], w.I(E), w.I(O), w.I(ov)}, {tiles, w.I(E), w.I(O + 1), w.I(ov)}, {tiles, w.I(E), w.I(O), w.I(clampZ(ov - 1))}}
-	emit(r, name, []w.Val{tiles, w.I(E), w.I(O), w.I(ov)}, decoys, g.R.Int63(), []string{Tag("O=%d", O), lenTag(len(tiles))}, false)
+	return emit(r, name, []w.Val{tiles, w.I(E), w.I(O), w.I(ov)}, decoys, g.R.Int63(), []string{Tag("O=%d", O), lenTag(len(tiles))}, false)
 }
 
-func genExpand(r *run.Runner, g *Gen) {
+func genExpand(r *run.Runner, g *Gen) bool {
 	t := baseVoxel(g, 0, 35, 0, 35, false)
 	d := g.Int63n(5)
 	if g.Chance(0.5) {
@@ -796,12 +981,12 @@ func genExpand(r *run.Runner, g *Gen) {
 	u := baseVoxel(g, 3, 30, 3, 30, false)
 	u.v = clampZ(u.h + g.Int63n(5) - 2)
 	u.f = g.VIndex(u.v)
-	emit(r, "ConvertExtendedSpatialIDToSpatialIDs", []w.Val{w.S(t.str())}, [][]w.Val{{w.S(u.str())}}, g.R.Int63(), []string{Tag("dz=%d", t.h-t.v)}, t.h == t.v)
+	return emit(r, "ConvertExtendedSpatialIDToSpatialIDs", []w.Val{w.S(t.str())}, [][]w.Val{{w.S(u.str())}}, g.R.Int63(), []string{Tag("dz=%d", t.h-t.v)}, t.h == t.v)
 }
 
 // ---------------------------------------------------------------------------------------------- set helpers
 
-func genHelpers(r *run.Runner, g *Gen) {
+func genHelpers(r *run.Runner, g *Gen) bool {
 	pool := make([]string, 3+g.Intn(8))
 	for i := range pool {
 		if g.Chance(0.5) {
@@ -821,60 +1006,129 @@ func genHelpers(r *run.Runner, g *Gen) {
 	l1, l2 := lst(), lst()
 	switch g.Intn(4) {
 	case 0:
-		emit(r, "Unique", []w.Val{l1}, [][]w.Val{{l2}}, g.R.Int63(), nil, false)
+		return emit(r, "Unique", []w.Val{l1}, [][]w.Val{{l2}}, g.R.Int63(), nil, false)
 	case 1:
-		emit(r, "Union", []w.Val{l1, l2}, [][]w.Val{{l2, l1}, {l1, l1}}, g.R.Int63(), nil, false)
+		return emit(r, "Union", []w.Val{l1, l2}, [][]w.Val{{l2, l1}, {l1, l1}}, g.R.Int63(), nil, false)
 	case 2:
-		emit(r, "Difference", []w.Val{l1, l2}, [][]w.Val{{l2, l1}, {l1, l1}}, g.R.Int63(), nil, false)
+		return emit(r, "Difference", []w.Val{l1, l2}, [][]w.Val{{l2, l1}, {l1, l1}}, g.R.Int63(), nil, false)
 	default:
-		emit(r, "Intersect", []w.Val{l1, l2}, [][]w.Val{{l2, l1}, {l1, l1}}, g.R.Int63(), nil, false)
+		return emit(r, "Intersect", []w.Val{l1, l2}, [][]w.Val{{l2, l1}, {l1, l1}}, g.R.Int63(), nil, false)
 	}
 }
 
 // ---------------------------------------------------------------------------------------------- distribution
 
-func genOne(r *run.Runner, g *Gen, i int) {
+func genOne(r *run.Runner, g *Gen, i int) bool {
 	switch i % 26 {
 	case 0, 1, 2:
-		genChange(r, g, false)
+		return genChange(r, g, false)
 	case 3:
-		genChange(r, g, true)
+		return genChange(r, g, true)
 	case 4, 5, 6:
-		genMerge(r, g, false)
+		return genMerge(r, g, false)
 	case 7:
-		genMerge(r, g, true)
+		return genMerge(r, g, true)
 	case 8:
-		genLine(r, g, false)
+		return genLine(r, g, false)
 	case 9:
-		genLine(r, g, true)
-	case 10, 11:
-		genCorridor(r, g)
+		return genLine(r, g, true)
+	case 10:
+		return genCorridor(r, g)
+	case 11:
+		if g.Chance(0.7) {
+			return genCorridorTie(r, g)
+		}
+		return genCorridor(r, g)
 	case 12:
-		genFixedNb(r, g)
+		return genFixedNb(r, g)
 	case 13, 14:
-		genN(r, g)
+		return genN(r, g)
 	case 15:
-		genOverlap(r, g, false, g.Chance(0.75))
+		return genOverlap(r, g, false, g.Chance(0.75))
 	case 16:
-		genOverlap(r, g, true, g.Chance(0.75))
+		return genOverlap(r, g, true, g.Chance(0.75))
 	case 17:
-		genE2Q(r, g, false)
+		return genE2Q(r, g, false)
 	case 18:
-		genE2Q(r, g, true)
+		return genE2Q(r, g, true)
 	case 19:
-		genE2QA(r, g)
+		return genE2QA(r, g)
 	case 20:
-		genQ2E(r, g, false)
+		return genQ2E(r, g, false)
 	case 21:
-		genQ2E(r, g, true)
+		return genQ2E(r, g, true)
 	case 22:
-		genTiles(r, g, false)
+		return genTiles(r, g, false)
 	case 23:
-		genTiles(r, g, true)
+		return genTiles(r, g, true)
 	case 24:
-		genExpand(r, g)
+		return genExpand(r, g)
 	default:
-		genHelpers(r, g)
+		if g.Chance(0.35) {
+			return genEmpty(r, g)
+		}
+		return genHelpers(r, g)
+	}
+}
+
+// genEmpty: an empty or a nil list for a list argument of a list-taking operation (the other arguments valid)
+func genEmpty(r *run.Runner, g *Gen) bool {
+	empty := func() w.Val {
+		if g.Chance(0.5) {
+			return w.Nil{}
+		}
+		return w.List{}
+	}
+	t := baseVoxel(g, 1, 30, 1, 30, false)
+	ts := sidVoxel(g)
+	z := g.Int63n(36)
+	tag := []string{"empty-or-nil-list"}
+	switch g.Intn(16) {
+	case 0:
+		return emit(r, "ChangeExtendedSpatialIdsZoom", []w.Val{empty(), w.I(z), w.I(g.Int63n(36))}, nil, 1, tag, true)
+	case 1:
+		return emit(r, "ChangeSpatialIdsZoom", []w.Val{empty(), w.I(z)}, nil, 1, tag, true)
+	case 2:
+		return emit(r, "MergeExtendedSpatialIds", []w.Val{empty(), w.I(z), w.I(g.Int63n(36))}, nil, 1, tag, true)
+	case 3:
+		return emit(r, "MergeSpatialIds", []w.Val{empty(), w.I(z)}, nil, 1, tag, true)
+	case 4:
+		return emit(r, "GetNspatialIdsAroundVoxcels", []w.Val{empty(), w.I(g.Int63n(3)), w.I(g.Int63n(3))}, nil, 1, tag, true)
+	case 5:
+		other := extStrs(cluster(g, t, 1+g.Intn(3), 1, 1, false))
+		if g.Chance(0.5) {
+			return emit(r, "CheckExtendedSpatialIdsArrayOverlap", []w.Val{empty(), other}, [][]w.Val{{other, other}}, g.R.Int63(), tag, false)
+		}
+		return emit(r, "CheckExtendedSpatialIdsArrayOverlap", []w.Val{other, empty()}, [][]w.Val{{other, other}}, g.R.Int63(), tag, false)
+	case 6:
+		other := sidStrs([]eid{ts, ts})
+		if g.Chance(0.5) {
+			return emit(r, "CheckSpatialIdsArrayOverlap", []w.Val{empty(), other}, [][]w.Val{{other, other}}, g.R.Int63(), tag, false)
+		}
+		return emit(r, "CheckSpatialIdsArrayOverlap", []w.Val{other, empty()}, [][]w.Val{{other, other}}, g.R.Int63(), tag, false)
+	case 7:
+		return emit(r, "ConvertExtendedSpatialIDsToQuadkeysAndVerticalIDs", []w.Val{empty(), w.I(1 + g.Int63n(31)), w.I(z), w.F(0), w.F(0)}, nil, 1, tag, true)
+	case 8:
+		return emit(r, "ConvertSpatialIDsToQuadkeysAndVerticalIDs", []w.Val{empty(), w.I(1 + g.Int63n(31)), w.I(z), w.F(0), w.F(0)}, nil, 1, tag, true)
+	case 9:
+		return emit(r, "ConvertExtendedSpatialIDsToQuadkeysAndAltitudekeys", []w.Val{empty(), w.I(1 + g.Int63n(31)), w.I(z), w.I(25), w.I(0)}, nil, 1, tag, true)
+	case 10:
+		return emit(r, "ConvertQuadkeysAndVerticalIDsToExtendedSpatialIDs", []w.Val{empty(), w.I(z), w.I(g.Int63n(36))}, nil, 1, tag, true)
+	case 11:
+		return emit(r, "ConvertQuadkeysAndVerticalIDsToSpatialIDs", []w.Val{empty(), w.I(z)}, nil, 1, tag, true)
+	case 12:
+		return emit(r, "ConvertTileXYZsToExtendedSpatialIDs", []w.Val{empty(), w.I(25), w.I(0), w.I(z)}, nil, 1, tag, true)
+	case 13:
+		return emit(r, "ConvertTileXYZsToSpatialIDs", []w.Val{empty(), w.I(25), w.I(0), w.I(z)}, nil, 1, tag, true)
+	case 14:
+		l := strList([]string{"b", "a", "b"})
+		name := []string{"Union", "Difference", "Intersect"}[g.Intn(3)]
+		if g.Chance(0.5) {
+			return emit(r, name, []w.Val{empty(), l}, [][]w.Val{{l, l}}, g.R.Int63(), tag, false)
+		}
+		return emit(r, name, []w.Val{l, empty()}, [][]w.Val{{l, l}}, g.R.Int63(), tag, false)
+	default:
+		return emit(r, "Unique", []w.Val{empty()}, nil, 1, tag, true)
 	}
 }
 
@@ -908,6 +1162,14 @@ func fixedCases(r *run.Runner) {
 		p1, _ := pt(139.7, lat, 100)
 		p2, _ := pt(139.7+0.5*cellLon(20), lat, 100)
 		return []w.Val{p1, p2, w.F(rad), w.I(20), w.I(20), w.B(true)}
+	}
+	// corridor, measured mode, radius on a measured-distance tie (the reviewer's witness of the defect repaired by 915e48e: the candidates
+	// were measured in map order with one closest.Measure that carries its search direction from candidate to candidate)
+	q1, _ := pt(140.61889215925277, 26.9452152214, 100)
+	q2, _ := pt(140.61862579665475, 26.9456391174, 100)
+	for _, rad := range []float64{48.882069811573146, 2.1929268549056547e-05} {
+		emit(r, "GetExtendedSpatialIdsWithinRadiusOfLine", []w.Val{q1, q2, w.F(rad), w.I(20), w.I(20), w.B(false)},
+			[][]w.Val{{q1, q2, w.F(rad * 0.5), w.I(20), w.I(20), w.B(false)}, {q1, q2, w.F(rad), w.I(20), w.I(20), w.B(true)}}, 9, []string{"fixed", "r=measured-distance-tie"}, false)
 	}
 	emit(r, "GetExtendedSpatialIdsWithinRadiusOfLine", mk(60, 50), [][]w.Val{mk(1, 20), mk(1, 50)}, 5, []string{"fixed", "lat-change"}, false)
 	emit(r, "GetExtendedSpatialIdsWithinRadiusOfLine", mk(1, 50), [][]w.Val{mk(60, 20), mk(60, 50)}, 5, []string{"fixed", "lat-change"}, false)
